@@ -1,6 +1,8 @@
 package main
 
 import (
+	"runtime/debug"
+	"runtime/pprof"
 	"encoding/json"
 	"flag"
 	"fmt"
@@ -38,6 +40,8 @@ func main() {
 		concrete  = flag.String("concrete", "", "JSON file of concrete inputs {name:[values...]} (translator validation)")
 		qlog      = flag.String("querylog", "", "prefix for solver query logs")
 		tags      = flag.String("tags", "verif", "build tags")
+		noslice   = flag.Bool("noslice", false, "disable independent-constraint slicing of queries")
+		only      = flag.String("only", "", "comma-separated label prefixes: assertions whose label starts with another 'Cnn:' prefix are not checked")
 	)
 	var harnesses stringList
 	var pkgs stringList
@@ -45,7 +49,14 @@ func main() {
 	flag.Var(&harnesses, "harness", "pkgpath.Func (repeatable)")
 	flag.Var(&pkgs, "pkg", "package pattern to load (repeatable)")
 	flag.Var(&initPk, "initpkg", "extra package whose initialiser is executed")
+	cpuprof := flag.String("cpuprofile", "", "write CPU profile")
+	memGB := flag.Int("mem-gb", 6, "soft memory limit in GiB (the garbage collector runs only when it is approached)")
 	flag.Parse()
+	if *cpuprof != "" {
+		f, _ := os.Create(*cpuprof)
+		pprof.StartCPUProfile(f)
+		defer pprof.StopCPUProfile()
+	}
 
 	overlay := map[string][]byte{}
 	if *overlayF != "" {
@@ -85,6 +96,9 @@ func main() {
 	}
 	prog, _ := ssautil.AllPackages(initial, ssa.InstantiateGenerics)
 	prog.Build()
+	// the SSA program is a large, long-lived heap: collect rarely
+	debug.SetGCPercent(-1)
+	debug.SetMemoryLimit(int64(*memGB) << 30)
 	loadS := time.Since(t0).Seconds()
 
 	findFn := func(q string) *ssa.Function {
@@ -153,7 +167,10 @@ func main() {
 			continue
 		}
 		c := &Config{Unwind: *unwind, MaxSteps: *maxSteps, MapPermMax: *permMax, Solver: *solver,
-			TimeoutMs: *timeoutMs, Workers: *workers, MaxPaths: *maxPaths, QueryLog: *qlog, Concrete: conc}
+			TimeoutMs: *timeoutMs, Workers: *workers, MaxPaths: *maxPaths, QueryLog: *qlog, Concrete: conc, NoSlice: *noslice}
+		if *only != "" {
+			c.Only = strings.Split(*only, ",")
+		}
 		if *budgetS > 0 {
 			c.Deadline = time.Now().Add(time.Duration(*budgetS) * time.Second)
 		}
@@ -185,6 +202,7 @@ func main() {
 		for _, e := range o.Errors {
 			fmt.Fprintln(os.Stderr, "ERROR:", e)
 		}
+		pprof.StopCPUProfile()
 		os.Exit(2)
 	}
 }
